@@ -422,6 +422,10 @@ def monitorOp (cfg : Cfg) (d : DState) (toks : List String) (o : Obs) : MonRes :
     | some e =>
       if e.owner != ow then (acc.1, firstViol acc.2 (some "C11:id_addresses_one_session: owner of a session changed"))
       else if e.status == 2 then (acc.1, firstViol acc.2 (some s!"C11:dead_after_removal: terminated session {nm} still in the handler's table"))
+      else if e.status == 0 && fieldAt ent 4 == "c1" then
+        (acc.1, firstViol acc.2 (some (if e.posts > 0
+          then s!"C11:timer_never_fires_during_post: session {nm} is being closed while a POST is in progress"
+          else s!"C11:dead_after_removal: session {nm} is being closed without DELETE, timeout or server-side close")))
       else (acc.1, acc.2)
     | none =>
       let e : MSess := { name := nm, owner := ow, status := 0, posts := 0, idleSince := now }
